@@ -78,6 +78,21 @@ def rule_R2(ctx, prj):
     ctx.rule("R2", "lex builds its list with one Token per lexer tuple, in the lexer's order, and only filters it afterwards: "
                    "no sort, reversal or insertion", floor=1)
     fi = prj.func(f"{LU}:lex")
+    # evaluated: lex interpreted on lexer tuples at given offsets (filter bypassed): one token per tuple, in the tuples' order
+    from ..absint import PyRaise, Unknown
+    try:
+        okn = 0
+        for nls, offs in (([], [0, 4, 9]), ([5, 9], [0, 3, 5, 6, 9, 10, 14]), ([0, 1], [0, 1, 2, 3])):
+            got = lex_positions(prj, nls, offs)
+            vals = [v for v, _, _ in got]
+            if vals != [f"t{o}" for o in offs]:
+                ctx.viol("R2", "lex/reorders", fi.site(), f"for lexer tuples at offsets {offs} lex returns the tokens {vals}: not one token per tuple in the lexer's order")
+                return
+            okn += len(offs)
+        ctx.ok("R2", fi.site(), f"lex: one token per lexer tuple, in the lexer's order ({okn} tuples, evaluated)")
+        return
+    except (Unknown, PyRaise) as e:
+        ctx.info(f"lex not evaluable for the order of its tokens ({e}); the syntactic form decides")
     bad = []
     for n in fi.walk():
         if isinstance(n, ast.Call):
